@@ -5,7 +5,8 @@ From L4.gen Require Import Shape.
 From L4.model Require Import Relay.
 Import ListNotations.
 
-(* ---- dialPeers ---- *)
+(* ------------------------------------------------------------------------------------------ *)
+(* dialPeers                                                                                   *)
 Lemma dial_peers_cleanup : forall rs idx opened op cl,
   dial_peers rs idx opened = (op, cl, false) ->
   ~ In DialOkHeaderErr rs -> cl = op.
@@ -26,3 +27,195 @@ Proof.
   - destruct r; try discriminate.
     apply IH in H. destruct H as [H1 H2]. split; [assumption|]. rewrite H2, app_length; cbn; lia.
 Qed.
+
+(* ------------------------------------------------------------------------------------------ *)
+(* lists                                                                                       *)
+Definition prefix (a b : list byte) : Prop := exists r, a ++ r = b.
+
+Lemma prefix_refl : forall a, prefix a a.
+Proof. intros; exists []; apply app_nil_r. Qed.
+Lemma prefix_app_l : forall a b c, prefix (a ++ b) c -> prefix a c.
+Proof. intros a b c [r H]; exists (b ++ r); rewrite app_assoc; assumption. Qed.
+Lemma prefix_of_eq : forall a r b, a ++ r = b -> prefix a b.
+Proof. intros; eexists; eassumption. Qed.
+
+Lemma proj_app : forall i a b, proj i (a ++ b) = proj i a ++ proj i b.
+Proof. intros; unfold proj; rewrite filter_app, map_app; reflexivity. Qed.
+Lemma proj_tag_same : forall i l, proj i (tag i l) = l.
+Proof.
+  intros i l; unfold proj, tag. induction l as [|x l IH]; [reflexivity|].
+  cbn. rewrite Nat.eqb_refl. cbn. rewrite IH; reflexivity.
+Qed.
+Lemma proj_tag_other : forall i j l, i <> j -> proj i (tag j l) = [].
+Proof.
+  intros i j l H; unfold proj, tag. induction l as [|x l IH]; [reflexivity|].
+  cbn. destruct (Nat.eqb_spec j i); [congruence|]. exact IH.
+Qed.
+Lemma Forall_tag : forall i n l, i < n -> Forall (fun x : nat * byte => fst x < n) (tag i l).
+Proof. intros i n l H; unfold tag. apply Forall_forall. intros x Hx. apply in_map_iff in Hx. destruct Hx as [b [<- _]]. exact H. Qed.
+
+Lemma okk_spec : forall {A} k (l : list A), okk k l = true -> 1 <= k <= length l.
+Proof. intros A k l H; unfold okk in H. apply andb_true_iff in H. destruct H as [H1 H2]. apply Nat.leb_le in H1, H2. lia. Qed.
+
+Lemma upd_same : forall f i u, upd f i u i = u.
+Proof. intros; unfold upd; rewrite Nat.eqb_refl; reflexivity. Qed.
+Lemma upd_other : forall f i u j, j <> i -> upd f i u j = f j.
+Proof. intros f i u j H; unfold upd. destruct (Nat.eqb_spec j i); [contradiction|reflexivity]. Qed.
+
+(* ------------------------------------------------------------------------------------------ *)
+(* the safety invariant                                                                        *)
+
+Definition pend (pm : pumpst) (i : nat) : list byte :=
+  match pm with PWrite chk j => if j <=? i then chk else [] | _ => [] end.
+Definition pump_running (pm : pumpst) : bool := match pm with PRead | PWrite _ _ => true | _ => false end.
+Definition hold (x : copyst) : list byte := match x with CHold chk => chk | _ => [] end.
+Definition copy_done (x : copyst) : bool := match x with CDone => true | _ => false end.
+
+Definition inv_up (c : cfg) (s : st) (i : nat) : Prop :=
+  let u := ups s i in
+  if pump_running (pump (px s))
+  then u_log u ++ p2u u ++ pend (pump (px s)) i ++ c2p (cl s) ++ c_tosend (cl s) = c_total c
+  else prefix (u_log u ++ p2u u) (c_total c) /\ (lossy (px s) = false -> u_log u ++ p2u u = c_total c).
+
+Definition inv_down (c : cfg) (s : st) (i : nat) : Prop :=
+  let u := ups s i in
+  let got := proj i (c_log (cl s) ++ p2c (cl s)) in
+  if copy_done (cp u)
+  then prefix got (u_total c i) /\ (lossy (px s) = false -> got = u_total c i)
+  else got ++ hold (cp u) ++ u2p u ++ u_tosend u = u_total c i.
+
+Definition inv_uflags (c : cfg) (s : st) (i : nat) : Prop :=
+  let u := ups s i in
+  u2p_fin u = u_finned u /\ (u_finned u = true -> u_tosend u = []) /\ (u_rst u = true -> lossy (px s) = true) /\
+  (u_sock u = SClosed -> lossy (px s) = true \/ cp u = CDone) /\
+  (mainp (px s) <> MWait -> cp u = CDone).
+
+Definition inv_cflags (s : st) : Prop :=
+  c2p_fin (cl s) = c_finned (cl s) /\ (c_finned (cl s) = true -> c_tosend (cl s) = []) /\
+  (c_rst (cl s) = true -> lossy (px s) = true).
+
+Definition inv_tags (c : cfg) (s : st) : Prop := Forall (fun x => fst x < n_up c) (c_log (cl s) ++ p2c (cl s)).
+
+Definition Inv (c : cfg) (s : st) : Prop :=
+  (forall i, i < n_up c -> inv_up c s i /\ inv_down c s i /\ inv_uflags c s i) /\ inv_cflags s /\ inv_tags c s.
+
+Lemma all_done_spec : forall n f, all_done n f = true -> forall i, i < n -> cp (f i) = CDone.
+Proof.
+  intros n f H i Hi. unfold all_done in H. rewrite forallb_forall in H.
+  specialize (H i). assert (Hin : In i (seq 0 n)) by (apply in_seq; lia). specialize (H Hin).
+  destruct (cp (f i)); try discriminate; reflexivity.
+Qed.
+
+Lemma inv_init : forall c, Inv c (init c).
+Proof.
+  intros c. unfold Inv, init. split; [|split].
+  - intros i Hi. unfold inv_up, inv_down, inv_uflags, init_u. cbn.
+    split; [apply firstn_skipn|]. split; [reflexivity|].
+    repeat split; try discriminate; try congruence.
+  - unfold inv_cflags; cbn. repeat split; discriminate.
+  - unfold inv_tags; cbn. constructor.
+Qed.
+
+Ltac destr_st s := destruct s as [[ts cf c2 c2f crst pc pcf clog ceof ds] [pm ch mn ls] us].
+
+Ltac split_andb :=
+  repeat match goal with
+  | H : _ && _ = true |- _ => apply andb_true_iff in H; destruct H
+  | H : negb _ = true |- _ => apply negb_true_iff in H
+  | H : (_ <? _) = true |- _ => apply Nat.ltb_lt in H
+  | H : (_ <? _) = false |- _ => apply Nat.ltb_ge in H
+  | H : okk _ _ = true |- _ => apply okk_spec in H
+  end.
+
+(* case analysis of one step: leaves one goal per way the step can succeed *)
+Ltac step_cases H :=
+  unfold step in H;
+  repeat match type of H with
+  | (if ?b then _ else _) = Some _ => let E := fresh "E" in destruct b eqn:E; [|try discriminate H]
+  | (match ?x with _ => _ end) = Some _ => let E := fresh "E" in destruct x eqn:E; try discriminate H
+  | _ => progress cbv zeta in H
+  end;
+  try discriminate H;
+  match type of H with Some _ = Some _ => inversion H; subst; clear H end;
+  split_andb.
+
+Lemma app_firstn_skipn_mid : forall (a b : list byte) k rest, (a ++ firstn k b) ++ skipn k b ++ rest = a ++ b ++ rest.
+Proof. intros. rewrite <- app_assoc. f_equal. rewrite app_assoc, firstn_skipn. reflexivity. Qed.
+
+Ltac simp_proj := cbn [cl px ups c_tosend c_finned c2p c2p_fin c_rst p2c p2c_fin c_log c_eof d_sock pump chan mainp lossy
+                       u_tosend u_finned u2p u2p_fin u_rst p2u p2u_fin u_log u_eof u_sock cp pump_running pend copy_done hold] in *.
+Ltac prep := unfold Inv, inv_up, inv_down, inv_uflags, inv_cflags, inv_tags in *; simp_proj.
+Ltac updcase j i := destruct (Nat.eq_dec j i) as [->|?]; [rewrite ?upd_same in *|rewrite ?upd_other in * by assumption]; simp_proj.
+Ltac easy := solve [assumption | tauto | intuition (try congruence; try discriminate) ].
+Lemma firstn_skipn_app : forall {A} k (l r : list A), firstn k l ++ skipn k l ++ r = l ++ r.
+Proof. intros. rewrite app_assoc, firstn_skipn. reflexivity. Qed.
+Ltac norm_lists := repeat rewrite <- app_assoc in *; repeat rewrite firstn_skipn_app in *; repeat rewrite firstn_skipn in *;
+                   rewrite ?app_nil_r in *; rewrite ?app_nil_l in *.
+Ltac split_ifs := repeat match goal with
+  | H : context [if ?b then _ else _] |- _ => destruct b eqn:?
+  | |- context [if ?b then _ else _] => destruct b eqn:? end.
+
+Lemma wr_close_closed : forall x, wr_close x = SClosed -> x = SClosed.
+Proof. destruct x; cbn; congruence. Qed.
+
+Lemma inv_step : forall c s l s', Inv c s -> step c s l = Some s' -> Inv c s'.
+Proof.
+  intros c s l s' HI H. destr_st s. destruct HI as [HU [HC HT]].
+  destruct l; step_cases H; prep.
+  all: (split; [intros q Hq; pose proof (HU q Hq) as HUq; destruct HUq as (HA & HB & HF1 & HF2 & HF3 & HF4 & HF5);
+                try match goal with |- context [upd _ ?i _ q] => updcase q i end; (split; [|split]) | split]).
+  all: try easy.
+  all: try (norm_lists; easy).
+  all: try (split_ifs; norm_lists; easy).
+  all: simp_proj.
+  all: try (split_ifs; norm_lists; easy).
+  - (* PumpRead, read error *)
+    split; [eapply prefix_of_eq; rewrite <- app_assoc; exact HA|]. intros Hl. destruct HC as (_ & _ & HC3).
+    rewrite HC3 in Hl by reflexivity. discriminate.
+  - (* PumpRead, EOF *)
+    destruct HC as (HC1 & HC2 & _). rewrite (HC2 (eq_sym HC1)) in HA. cbn [app] in HA. rewrite app_nil_r in HA.
+    split; [rewrite HA; apply prefix_refl|intros _; exact HA].
+  - (* PumpWrite, write error *)
+    split; [eapply prefix_of_eq; rewrite <- app_assoc; exact HA|]. intros Hl.
+    destruct (HU j E0) as (_ & _ & _ & _ & HF3j & _). rewrite HF3j in Hl by assumption. discriminate.
+  - (* PumpWrite to j, seen from j *)
+    rewrite Nat.leb_refl in HA. replace (S j <=? j) with false by (symmetry; apply Nat.leb_gt; lia).
+    norm_lists. exact HA.
+  - (* PumpWrite to j, seen from q <> j *)
+    replace (S j <=? q) with (j <=? q) by (destruct (Nat.leb_spec j q); destruct (Nat.leb_spec (S j) q); try reflexivity; lia).
+    exact HA.
+  - (* PumpWrite past the last upstream *)
+    replace (j <=? q) with false in HA by (symmetry; apply Nat.leb_gt; lia). exact HA.
+  - (* PumpClose with CloseWrite *)
+    repeat split; try tauto. intros Hw. apply HF4. apply wr_close_closed; assumption.
+  - (* CopyRead, read error *)
+    rewrite E0 in HB. simp_proj. split; [eapply prefix_of_eq; exact HB|]. intros Hl.
+    apply orb_true_iff in E1. destruct E1 as [E1|E1].
+    + rewrite HF3 in Hl by assumption. discriminate.
+    + destruct (u_sock (us i)) eqn:Es; try discriminate. destruct HF4 as [HF4|HF4]; [reflexivity|congruence|congruence].
+  - (* CopyRead, EOF *)
+    rewrite E0 in HB. simp_proj. rewrite E2 in HB. rewrite HF2 in HB by congruence. norm_lists.
+    split; [rewrite HB; apply prefix_refl|intros _; exact HB].
+  - (* CopyRead, data *)
+    rewrite E0 in HB. simp_proj. rewrite E2 in HB. rewrite firstn_skipn_app. exact HB.
+  - (* CopyWrite, write error *)
+    rewrite E0 in HB. simp_proj. split; [eapply prefix_of_eq; exact HB|]. intros Hl. destruct HC as (_ & _ & HC3).
+    rewrite HC3 in Hl by reflexivity. discriminate.
+  - (* CopyWrite, seen from i *)
+    rewrite E0 in HB. simp_proj. rewrite (app_assoc clog), proj_app, proj_tag_same. norm_lists. exact HB.
+  - (* CopyWrite, seen from q <> i *)
+    rewrite (app_assoc clog), proj_app, proj_tag_other by assumption. rewrite app_nil_r. exact HB.
+  - rewrite app_assoc. apply Forall_app. split; [exact HT|apply Forall_tag; assumption].
+  - (* MainWait *)
+    repeat split; try tauto. intros _. eapply all_done_spec; eassumption.
+Qed.
+
+Lemma exec_inv : forall c ls s s', Inv c s -> exec c s ls = Some s' -> Inv c s'.
+Proof.
+  intros c ls. induction ls as [|l r IH]; intros s s' HI H; cbn in H.
+  - inversion H; subst; assumption.
+  - destruct (step c s l) as [s1|] eqn:E; [|discriminate]. eapply IH; [|eassumption]. eapply inv_step; eassumption.
+Qed.
+
+Lemma reachable_inv : forall c s, reachable c s -> Inv c s.
+Proof. intros c s [ls H]. eapply exec_inv; [apply inv_init|eassumption]. Qed.
